@@ -202,7 +202,7 @@ func (boundary) Describe() core.EngineInfo {
 	return core.EngineInfo{
 		Level: "exploration",
 		Rule: "a case is one VM with a random set of host natives (the six NewFunc forms x arity 0-6 x 0-4 results, variadic tails), a generated script calling them as statements, in multi-assignments, inside arithmetic with live operands, as arguments of natives and script functions, through function variables, in loops, methods, callbacks re-entering the VM (Func) and sort comparators, " +
-			"plus host-side Call/Func of script identity functions with every requested result count, of functions returning constants under mixed declared result types, and NewStruct/SetAttr/GetAttr instance sequences interleaved with script reads, writes and literals; a fault plan makes the n-th invocation of a native panic (propagated or handled by an intermediate native). Each native checks what it received against what the script passed; each result is echoed back and checked. " +
+			"plus host-side Call/Func of script identity functions with every requested result count, of functions returning constants under mixed declared result types, NewStruct/SetAttr/GetAttr instance sequences interleaved with script reads, writes and literals, (value, err) natives alternating error objects and nil, every scalar constructor with its boundary values, natives registered under builtin names, package variables holding natives re-assigned between calls; a fault plan makes the n-th invocation of a native panic (propagated or handled by an intermediate native). Each native checks what it received against what the script passed; each result is echoed back and checked. " +
 			"non-trivial = a native fault fired or a call re-entered the VM; distinct = (forms x contexts exercised, fault depth, handled/propagated, outcome)",
 		Real:       []string{"goatlang NewFunc adapters, call/callReady, mkFunc, newMethod, VM.Call/Func/Set/Get, constructors and accessors, slices.SortFunc native"},
 		Stubs:      []string{"host natives are the simulator's (they are the seam)", "SimDisk serves the script"},
